@@ -401,7 +401,10 @@ def run(tier, rep):
     # packages rebuilt before everything is linked; all behaviours replayed
     sweep_replayed = 0
     for graph in ("tri", "diamond") if tier == "quick" else ("chain", "tri", "fan", "diamond"):
-        r = run_tlc("MCArtifacts", f"Artifacts_sweep_{graph}.cfg", workers=1, timeout=900, xmx="4g", env={"KOFF": seed()}, name=f"artifacts-sweep-{graph}")
+        # (the smallest graph with every kind of interface edit - additions, removals, changed signatures, reordered same-typed
+        # fields and reordered variants -, the others with one kind per package)
+        allk = graph == ("tri" if tier == "quick" else graph)
+        r = run_tlc("MCArtifacts", f"Artifacts_sweep_{graph}.cfg", workers=1, timeout=900, xmx="4g", env={"KOFF": seed(), "SWEEPKINDS": "all" if allk else "one"}, name=f"artifacts-sweep-{graph}")
         if r.rc != 0 and r.violated:
             rep.violation(f"model:sweep:{graph}:{r.violated}", {"trace": r.trace[-4:]})
             continue
@@ -409,8 +412,8 @@ def run(tier, rep):
             raise ToolError("sweep enumeration failed: " + (r.error or r.stdout[-2000:]))
         hists = r.json_prints("HIST")
         n = len(GRAPHS[graph])
-        if len(hists) != n * 2 ** n:
-            raise ToolError(f"sweep of {graph}: {len(hists)} behaviours, expected {n * 2 ** n}")
+        if len(hists) != n * 2 ** n * (len(projgen.IFACE_KINDS) if allk else 1):
+            raise ToolError(f"sweep of {graph}: {len(hists)} behaviours, expected {n * 2 ** n * (len(projgen.IFACE_KINDS) if allk else 1)}")
         for h in hists:
             issues, st = replay(h, graph, os.path.join(WORK, "c15", f"sweep-{graph}"), rnd)
             sweep_replayed += 1
